@@ -328,6 +328,13 @@ def hidden_state(model: Model, R: RuleResult, files: Set[str]) -> int:
                     allowed |= set(ks_)
         # a function that moved (renamed nested def etc.) is matched by qualname only
         n += 1
+        # an instance attribute that some (non-constructor) method of the same class already re-writes after construction is mutable
+        # cross-call state today: moving that write to another method of the class (an inlined helper) adds no new history-dependence
+        if fi.cls is not None:
+            pre = "%s::%s." % (fi.module.relpath, fi.cls.name)
+            for fq_, ks_ in table.items():
+                if fq_.startswith(pre):
+                    allowed |= {k_ for k_ in ks_ if k_.startswith("attr:self.")}
         # the holder is the attribute / object written; `x[k] = v`, `x.append(v)`, `x.update(..)` are spellings of a write to the same holder
         allowed_holders = {_holder(k) for k in allowed}
         bad = [(k, node) for k, node in ws if k not in allowed and _holder(k) not in allowed_holders]
